@@ -393,6 +393,11 @@ struct Rewriter<'a, 'e> {
     self_ty: Option<String>,
     inline_stack: Vec<String>,
     inline_visited: std::collections::BTreeSet<String>,
+    /// closures whose header a rewrite rule drops or replaces (their body lives on inside the rule's replacement)
+    consumed_closures: Vec<(usize, usize)>,
+    /// closures that survive into the assembled text WITHOUT a contract (no `//@closure` header): their results would be
+    /// unconstrained for the verifier, so the function is declared undecidable rather than verified
+    bare_closures: Vec<usize>,
 }
 
 const LOG_MACROS: &[&str] = &["trace", "debug", "info", "warn", "error", "println", "eprintln", "print", "eprint"];
@@ -551,6 +556,9 @@ impl<'a, 'e> Rewriter<'a, 'e> {
             self.inline_stack.pop();
         }
         true
+    }
+    fn consume(&mut self, e: &syn::Expr) {
+        if let syn::Expr::Closure(c) = e { let r = self.src.range(c.span()); self.consumed_closures.push(r); }
     }
     /// `|_| panic!(..)` / `|_| { panic!(..) }` (also unreachable!)
     fn closure_only_panics(e: &syn::Expr) -> bool {
@@ -757,6 +765,9 @@ impl<'a, 'e, 'ast> Visit<'ast> for Rewriter<'a, 'e> {
         }
         let (a, b) = self.src.range(c.span());
         let already = self.ed.edits.iter().any(|e| e.start == a && e.end == b);
+        if !already && !self.consumed_closures.iter().any(|r| *r == (a, b)) {
+            self.bare_closures.push(self.src.line_of(a));
+        }
         if !already && c.inputs.iter().any(|p| !plain(p)) && c.capture.is_none() && c.asyncness.is_none() {
             let mut pieces = vec![Self::lit("|")];
             let mut lets: Vec<Piece> = vec![];
@@ -929,6 +940,7 @@ impl<'a, 'e, 'ast> Visit<'ast> for Rewriter<'a, 'e> {
                     let pieces = vec![Self::lit("shim_sum_lens(&"), self.sub(x.span()), Self::lit(")")];
                     self.ed.replace(a, b, pieces, "R5");
                     self.fire("R5");
+                    self.consume(&margs[0]);
                 }
                 // R28: X.values().map(C).sum()  ->  shim_values_sum(&X, C, Ghost(SPEC))     (SPEC: the template's `//@sumspec`)
                 //      X.values().map(C1).map(C2).sum()  ->  shim_values_sum2(&X, C1, C2, Ghost(SPEC))
@@ -974,6 +986,7 @@ impl<'a, 'e, 'ast> Visit<'ast> for Rewriter<'a, 'e> {
                                           self.sub(c.body.span()), Self::lit("), None => None })")];
                         self.ed.replace(a, b, pieces, "R15");
                         self.fire("R15");
+                        self.consume(&m.args[0]);
                     }
                 }
             }
@@ -1013,6 +1026,7 @@ impl<'a, 'e, 'ast> Visit<'ast> for Rewriter<'a, 'e> {
                             let pieces = vec![Self::lit("shim_fill_vec("), self.sub(hi.span()), Self::lit(", "), self.sub(c.body.span()), Self::lit(")")];
                             self.ed.replace(a, b, pieces, "R14");
                             self.fire("R14");
+                            self.consume(&margs[0]);
                         }
                     }
                 }
@@ -1370,8 +1384,12 @@ fn process_fn(ctx: &mut Ctx, d: &FnDirective, assume_default: bool, tfile: &str)
             let mut rw = Rewriter { src, ed: &mut ed, abort_allowed, fired: BTreeMap::new(), thread, tostring: d.opts.has("tostring"),
                                     sumspec: d.sections.iter().find(|(a, _)| a == "sumspec").map(|(_, t)| t.trim().to_string()),
                                     known: &ctx.known, self_ty, inline_stack: vec![d.qual.split('@').last().unwrap_or("").rsplit("::").next().unwrap_or("").to_string()],
-                                    inline_visited: Default::default() };
+                                    inline_visited: Default::default(), consumed_closures: vec![], bare_closures: vec![] };
             rw.visit_block(loc.block);
+            if !rw.bare_closures.is_empty() && !d.opts.has("bareclosures") {
+                fail(format!("{}:{}: {} contains a closure without a contract (source line {}): its result would be unconstrained for the verifier, so the function is not decidable as it stands (unsupported construct)",
+                             tfile, d.tline, d.qual, rw.bare_closures[0]));
+            }
             fired = rw.fired;
         }
         let body = ed.render(fstart, fend, None);
